@@ -221,6 +221,32 @@ func Shapes() []*Grammar {
 
 // Empty2 is an expression that always matches the empty string but is not the bare empty
 // alternative: 'z'? at a place where it is simply optional.
+// Long is the long-input layer: grammars with loops and recursion, each with a concrete filler
+// cycle that keeps the parse going, so that inputs of hundreds to 2^16 runes (all concrete but
+// two arbitrary "hole" runes) reach wide trees, deep nesting, many memo entries and offsets
+// beyond the range of a narrow integer instantiation.
+func Long() []*Grammar {
+	a, b, x := func() *E { return Lit("a") }, func() *E { return Lit("b") }, func() *E { return Lit("x") }
+	var gs []*Grammar
+	add := func(tag, filler string, max int, flat bool, bodies ...*E) {
+		g := New("long/"+tag, bodies...)
+		g.Filler, g.LongMax, g.Flat = filler, max, flat
+		gs = append(gs, g)
+	}
+	eof := func() *E { return Not(Dot()) }
+	add("star-lit", "a", 70000, true, Seq(Star(a()), eof()))
+	add("until", "a", 70000, true, Seq(Star(Seq(Not(b()), Dot())), Opt(Seq(b(), Star(Dot()))), eof()))
+	add("class-plus-multibyte", "a\u00e9\u20ac\U0001F600", 70000, true, Seq(Cap(Plus(NClass(C('x')))), Opt(x()), eof()))
+	add("wide", "ab", 1000, false, Seq(Star(Ref(1)), eof()), Alt(a(), b()))
+	add("wide-multibyte", "a\u00e9\u20ac\U0001F600", 1000, false, Seq(Star(Ref(1)), eof()), Cap(NClass(C('x'))))
+	add("memo-groups", "aax", 1000, false, Seq(Star(Alt(Seq(Ref(1), x()), Seq(Ref(1), Lit("y")))), eof()), Plus(a()))
+	add("nest", "a", 300, false, Alt(Seq(a(), Ref(0)), b()))
+	add("nest-tail", "a", 300, false, Seq(Ref(1), eof()), Alt(Seq(a(), Ref(1), Opt(x())), b()))
+	add("cap-act", "ab ", 1000, false, Seq(Star(Seq(Cap(Plus(Class(R('a', 'c')))), Act(), Opt(Lit(" ")))), eof()))
+	add("choice-loop", "abcd", 1000, false, Seq(Star(Alt(Seq(a(), Ref(1)), Seq(Class(R('b', 'c')), Act()), Lit("d"))), eof()), Seq(b(), Act()))
+	return gs
+}
+
 func Empty2() *E { return Opt(Lit("z")) }
 
 // ---- multi-rule grammars by outlining ----
